@@ -104,7 +104,7 @@ def layout(m, u, v, d, p):
 
 MN = ["DEPT", "A B", "X1", "GR_1", "a", "A-B", "RHOB  2", "\u0413\u041b", "\u00c5NG", "N#1", "Q(1)", "'q'"]
 UN = ["", "M", "US/M", "hh:mm", "G/CM3", "K.M", "%", "1000lbf", "m.s", "ft:in", "\u00b5s/ft", "[M]", "(ohm.m)", "M3", "\u043c",
-      "a.b.c", "DD/MM:YY"]
+      "a.b.c", "DD/MM:YY", "1.5", "0.25", "3.14.15", "10.5m", "1/2"]
 VA = ["", "12.5", "hello world", "A9-16-49-20W3M", "x (y) [z]", "-999.25", "\"quoted\"", "it's", "a:b", "1:2:3", "C:\\dir",
       "100 2000", "\u00e9t\u00e9 2001", "15_9", "3.", ".5", "a.b", "e.g. this", "ANY OIL CO.", "1000 lbf"]
 DE = ["", "DEPTH", "1  DEPTH", "Time Logger", "x (y)", "ends.", "\"q\"", "a: b", "At: Bottom : deep", "12:30 run", "\u0433\u043b\u0443\u0431\u0438\u043d\u0430",
